@@ -4,323 +4,379 @@ from __future__ import annotations
 import ast
 
 from .. import astutil as A
+from .. import sym as S
 from ..core import AnalysisError, Collector
-from ..shapes import Interp, ShapeError, Unsupported
-from .common import FnCtx, fnctx, has_guard, is_method_call, is_self_call
+from ..shapes import ShapeError, TermShapes, Unsupported
+from .common import SCtx, sctx
+from .c02 import default_only_when_none
+from .c09 import OPT_KEEP, octx
 
 PROP = "C16"
-FLOORS = {"C16.R1": 6, "C16.R2": 6, "C16.R3": 5, "C16.R4": 4}
+FLOORS = {"C16.R1": 7, "C16.R2": 6, "C16.R3": 5, "C16.R4": 4}
 META = {
-    "explanation": "The statement is numerical; only what is visible without numbers is decided. Symbolic shape inference (distinct symbols "
-                   "for m, n, k, the cutoff and a second right-hand-side axis) over SVD.lstsq, the Broyden update, the masked solve and "
-                   "the scalar gradient: every product type-checks and results have the required shapes, for 1-D and 2-D right-hand sides; "
-                   "U, Vh and s are truncated by one bound on matching axes; singular values are inverted where positive and dropped below "
-                   "rcond * s[0]. Inverse pairs by symbolic algebra on the source expressions (sympy on the parsed formulas, nothing is "
-                   "executed): weights multiply in _x_to_knobs and divide in _knobs_to_x under the same guard; _scaled_from_native inverts "
-                   "_scaled_to_native; the chain-rule factor of the view's Jacobian equals the derivative of the very map the view applies. "
-                   "Forward differences perturb x[i] by steps[i], divide by the same steps[i] and restore x[i].",
+    "explanation": "The statement is numerical; only what is visible without numbers is decided. Symbolic shape inference on the "
+                   "symbolic terms (distinct symbols for m, n, k, the cutoff and a second right-hand-side axis) of SVD.lstsq, the "
+                   "Broyden update, the masked solve and the scalar gradient: every product type-checks and results have the required "
+                   "shapes, for 1-D and 2-D right-hand sides; the solution depends on the factorisation and the current rcond/cutoff "
+                   "only (nothing remembered from earlier calls); U, Vh and s are truncated by one bound on matching axes; singular "
+                   "values are inverted where positive and dropped below rcond * s[0]; the Broyden update uses the secant pair "
+                   "(x - x_at_last_jacobian, y - y_at_last_jacobian). Inverse pairs by symbolic algebra on the terms (sympy, nothing is "
+                   "executed): weights multiply in _x_to_knobs and divide in _knobs_to_x under the same guard; _scaled_from_native "
+                   "inverts _scaled_to_native; the chain-rule factor of the view's Jacobian equals the derivative of the very map the "
+                   "view applies. Forward differences perturb x[i] by steps[i], divide by the same steps[i] and restore x[i].",
     "decides": "shape correctness, truncation consistency, algebraic inverse/derivative identities of the scaling maps, finite-difference template",
     "not_decided": "that the result is the minimum-norm solution, convergence of the first step, agreement with finite differences to rounding, signs",
     "assumptions": ["numpy shape semantics of @, dot, outer, diag, boolean-mask indexing as modelled in xsa/shapes.py"],
 }
 
+NP = ("glob", "np")
+U, SV, VH = S.sattr("U"), S.sattr("s"), S.sattr("Vh")
+FULL = ("slice", None, None, None)
+
+
+def npf(name, *args, **kw):
+    return S.fcall(("attr", NP, name), *args, **kw)
+
+
+def _self_fields(t):
+    return {s_[2] for s_ in S.subterms(t) if S.is_attr(s_, S.SELF)}
+
 
 def _shapes(col, rule="C16.R1"):
     repo = col.repo
-    cx = fnctx(repo, "SVD", "lstsq")
-    body = A.strip_docstring(cx.fn.body)
+    sx = sctx(repo, "SVD", "lstsq")
+    b = sx.pnamed("b")
+    cut = sx.pnamed("sing_val_cutoff")
+    rets = [r for r in sx.of_kind("return") if ("uop", "not", S.sattr("empty")) in sx.conds(r.nid) or not sx.conds(r.nid)]
+    if not rets:
+        raise AnalysisError("SVD.lstsq: no return for a non-empty matrix (cannot decide)")
+    allowed = {"U", "s", "Vh", "rcond", "sing_val_cutoff", "empty"}
+    extra = sorted({f for r in rets for f in _self_fields(r.value)} - allowed)
+    col.add(rule, "SVD.lstsq#depends-on-current-arguments-only", not extra, sx.loc(rets[0]),
+            "the solution is computed from the factorisation (U, s, Vh) and the rcond / cutoff of *this* call: no attribute remembered "
+            "from an earlier call enters it", f"other attributes read: {extra}")
     for label, bshape, want in (("1-D right-hand side", ("m",), ("n",)), ("2-D right-hand side (stacked columns)", ("m", "r"), ("n", "r"))):
-        env = {"self.U": ("m", "k"), "self.Vh": ("k", "n"), "self.s": ("k",), "b": bshape, "rcond": (), "self.rcond": (),
-               "self.sing_val_cutoff": (), "sing_val_cutoff": (), "self.empty": ()}
-        it = Interp(env, {"sing_val_cutoff": "c"})
+        env = {U: ("m", "k"), VH: ("k", "n"), SV: ("k",), b: bshape, sx.pnamed("rcond"): (), S.sattr("rcond"): ()}
+        ts = TermShapes(env, {cut: "c", S.sattr("sing_val_cutoff"): "c"})
         try:
-            it.run(body)
-            got = [r for r in it.returns if r is not None]
-            ok = got == [want]
-            facts = f"result shape {got}, expected {want}"
+            got = [ts.of(r.value) for r in rets]
+            for e in sx.of_kind("store"):
+                if e.target[:1] == ("sub",) and e.value is not None and not S.is_attr(e.target[1], S.SELF):
+                    from ..shapes import broadcast
+                    broadcast(ts.index(ts.of(e.target[1]), e.target[2], S.show(e.target)[:60]), ts.of(e.value), S.show(e.target)[:60])
+            ok, facts = all(g == want for g in got), f"result shape {got}, expected {want}"
         except ShapeError as e:
             ok, facts = False, str(e)
         except Unsupported as e:
-            raise AnalysisError(f"SVD.lstsq: shape interpreter does not support {e}")
-        col.add(rule, f"SVD.lstsq#shapes:{label}", ok, cx.loc(cx.fn),
+            if extra:
+                ok, facts = False, f"cannot type an expression over remembered state: {e}"
+            else:
+                raise AnalysisError(f"SVD.lstsq: shape interpreter does not support {e}")
+        col.add(rule, f"SVD.lstsq#shapes:{label}", ok, sx.loc(rets[0]),
                 f"with U: m x k, s: k, Vh: k x n (full_matrices=False), truncated to c singular values, every product in lstsq "
                 f"type-checks and the solution has shape {want} for a {label}", facts)
-    # SVD.__init__ uses full_matrices=False and stores U, s, Vh in that order
-    cx = fnctx(repo, "SVD", "__init__")
-    ok = False
-    for n in A.walk(cx.fn):
-        if isinstance(n, ast.Assign) and isinstance(n.targets[0], ast.Tuple) and isinstance(n.value, ast.Call) and A.call_name(n.value) == "np.linalg.svd":
-            ok = [A.dotted(e) for e in n.targets[0].elts] == ["self.U", "self.s", "self.Vh"] and A.dotted(n.value.args[0]) == A.params(cx.fn)[1] \
-                and any(k.arg == "full_matrices" and A.is_const(k.value, False) for k in n.value.keywords)
-    col.add(rule, "SVD.__init__#economy-svd", ok, cx.loc(cx.fn), "the decomposition is the economy SVD of the given matrix, stored as U, s, Vh", "")
-    # Broyden update and masked solve in JacobianSolver.step
-    cx = fnctx(repo, "JacobianSolver", "step")
-    env = {"self._last_jac": ("p", "q"), "dx": ("q",), "dy": ("p",), "y": ("p",), "self.x": ("q",), "jac": ("p", "q"),
-           "mask_output": ("p",), "mask_input": ("q",), "self._last_jac_x": ("q",), "self._last_y": ("p",)}
-    found = 0
-    for n in A.walk(cx.fn):
-        if isinstance(n, ast.Assign) and A.target_names(n.targets[0]) == ["jac"] and "np.outer" in A.src(n.value):
-            found += 1
-            try:
-                sh = Interp(env).ev(n.value)
-                ok, facts = sh == ("p", "q"), f"shape {sh}"
-            except ShapeError as e:
-                ok, facts = False, str(e)
-            except Unsupported as e:
-                raise AnalysisError(f"JacobianSolver.step: {e}")
-            col.add(rule, "JacobianSolver.step#broyden-update-shape", ok, cx.module.loc(n),
-                    "the Broyden update J + outer(dy - J dx, dx) / (dx . dx) is a p x q matrix (rows = residuals, columns = knobs)", facts)
-        if isinstance(n, ast.Assign) and A.target_names(n.targets[0]) in (["dx"], ["dy"]):
-            nm = A.target_names(n.targets[0])[0]
-            try:
-                sh = Interp(env).ev(n.value)
-                ok = sh == env[nm]
-                col.add(rule, f"JacobianSolver.step#{nm}-shape", ok, cx.module.loc(n),
-                        f"{nm} is the difference of {'points' if nm == 'dx' else 'residual vectors'}", f"{A.src(n.value)} : {sh}")
-            except (ShapeError, Unsupported) as e:
-                col.add(rule, f"JacobianSolver.step#{nm}-shape", False, cx.module.loc(n), f"{nm} shape", str(e))
-    if found != 1:
-        raise AnalysisError("JacobianSolver.step: Broyden update not found")
-    for n in A.walk(cx.fn):
-        if isinstance(n, ast.Call) and A.call_name(n) == "SVD" and n.args:
-            try:
-                sh = Interp(env).ev(n.args[0])
-                ok = sh == ("sel(mask_output)", "sel(mask_input)")
-                facts = f"shape {sh}"
-            except ShapeError as e:
-                ok, facts = False, str(e)
-            except Unsupported as e:
-                raise AnalysisError(f"JacobianSolver.step: {e}")
-            col.add(rule, "JacobianSolver.step#masked-matrix-shape", ok, cx.module.loc(n),
-                    "the matrix handed to the SVD is (active targets) x (free knobs): the output mask selects rows, the input mask columns", facts)
-    # scalar gradient
-    cx = fnctx(repo, "MeritFuctionView", "get_jacobian")
-    rets = [n for n in A.walk(cx.fn) if isinstance(n, ast.Return) and "np.dot" in A.src(n.value)]
-    if len(rets) != 1:
-        raise AnalysisError("MeritFuctionView.get_jacobian: scalar gradient return not found")
+    isx = sctx(repo, "SVD", "__init__")
+    mat = isx.P(0)
+    dec = npf("svd", mat)
+    dec = ("call", ("attr", ("attr", NP, "linalg"), "svd"), (mat,), (("full_matrices", ("const", "False")),))
+    st = {e.target[2]: e.value for e in isx.of_kind("store") if S.is_attr(e.target, S.SELF)}
+    ok = st.get("U") == ("item", dec, 0) and st.get("s") == ("item", dec, 1) and st.get("Vh") == ("item", dec, 2)
+    col.add(rule, "SVD.__init__#economy-svd", ok, isx.loc(isx.fn), "the decomposition is the economy SVD of the given matrix, stored as U, s, Vh",
+            str({k: S.show(v)[:60] for k, v in st.items() if k in ("U", "s", "Vh")}))
+    # ---- Broyden update and masked solve in JacobianSolver.step
+    sx = octx(repo, "JacobianSolver", "step")
+    X = S.sattr("x")
+    FUNC = S.sattr("func")
+    Y = ("item", S.mcall(S.SELF, "eval", X), 0)
+    LJ, LX, LY = S.sattr("_last_jac"), S.sattr("_last_jac_x"), S.sattr("_last_y")
+    svd = sx.calls_some(("call", ("glob", "SVD"), (S.V("m"),), S.ANY))
+    if len(svd) != 1:
+        raise AnalysisError("JacobianSolver.step: expected one SVD(...) (cannot decide)")
+    mat = svd[0][1]["m"]
+    env = {LJ: ("p", "q"), X: ("q",), LX: ("q",), LY: ("p",), Y: ("p",), ("attr", FUNC, "mask_input"): ("q",), S.sattr("mask_from_limits"): ("q",),
+           ("attr", FUNC, "mask_output"): ("p",)}
+    for s_ in S.subterms(mat):
+        if S.is_call_of(s_, meth="get_jacobian"):
+            env[s_] = ("p", "q")
+    jac = mat
+    while jac[:1] == ("sub",):
+        jac = jac[1]
+    bro = [a for a in S.alts(jac) if S.contains(a, lambda t: S.is_call_of(t, ("attr", NP, "outer")))]
+    if len(bro) != 1:
+        raise AnalysisError("JacobianSolver.step: Broyden update not found among the Jacobian alternatives (cannot decide)")
+    DX, DY = ("op", "-", X, LX), ("op", "-", Y, LY)
+    want = ("op", "+", LJ, ("op", "/", npf("outer", ("op", "-", DY, npf("dot", LJ, DX)), DX), npf("dot", DX, DX)))
+    secant_ok = bro[0] == want
+    col.add(rule, "JacobianSolver.step#broyden-secant-pair", secant_ok, sx.loc(svd[0][0]),
+            "the Broyden update is J + outer(dy - J dx, dx) / (dx . dx) with dx = x - (x where the last Jacobian was taken) and "
+            "dy = y - (y at that point): the secant pair really observed, not the step that was proposed", S.show(bro[0])[:160])
+    ts = TermShapes(env)
     try:
-        sh = Interp({"f0": ("p",), "jac": ("p", "q")}).ev(rets[0].value)
-        ok, facts = sh == ("q",), f"shape {sh}"
+        sh = ts.of(mat)
+        ok = len(sh) == 2 and str(sh[0]).startswith("sel(") and str(sh[1]).startswith("sel(")
+        facts = f"shape {sh}"
     except ShapeError as e:
         ok, facts = False, str(e)
-    col.add(rule, "MeritFuctionView.get_jacobian#scalar-gradient-shape", ok, cx.module.loc(rets[0]),
-            "the gradient of the scalar merit 2 * f . J has one entry per knob", facts)
-    ok = A.src(rets[0].value).replace(" ", "") in ("2*np.dot(f0,jac)", "np.dot(f0,jac)*2", "2.0*np.dot(f0,jac)")
-    col.add(rule, "MeritFuctionView.get_jacobian#scalar-gradient-factor", ok, cx.module.loc(rets[0]),
-            "d/dx sum(f^2) = 2 f . J", A.src(rets[0].value))
+    except Unsupported as e:
+        if secant_ok:
+            raise AnalysisError(f"JacobianSolver.step: {e}")
+        ok, facts = False, f"cannot type the update: {e}"
+    col.add(rule, "JacobianSolver.step#masked-matrix-shape", ok, sx.loc(svd[0][0]),
+            "the matrix handed to the SVD is (active targets) x (free knobs): the output mask selects rows, the input mask columns, and "
+            "both Jacobian alternatives (finite differences, Broyden update) are p x q (rows = residuals, columns = knobs)", facts)
+    st = {}
+    for e in sx.of_kind("store"):
+        if S.is_attr(e.target, S.SELF):
+            st.setdefault(e.target[2], []).append(e)
+    okm = all(len(st.get(k, [])) == 1 for k in ("_last_jac_x", "_last_y", "_last_jac")) and \
+        st["_last_jac_x"][0].value == S.mcall(X, "copy") and st["_last_y"][0].value == S.mcall(Y, "copy") and \
+        S.match(st["_last_jac"][0].value, ("call", ("attr", S.V("j"), "copy"), (), ())) is not None
+    col.add(rule, "JacobianSolver.step#secant-memory", okm, sx.loc(sx.fn),
+            "the point, residuals and Jacobian remembered for the next Broyden update are copies of the current x, y and the Jacobian "
+            "just used", str({k: [S.show(e.value)[:50] for e in v] for k, v in st.items() if k.startswith("_last_jac") or k == "_last_y"}))
+    # ---- scalar gradient
+    sx = octx(repo, "MeritFuctionView", "get_jacobian")
+    rets = [r for r in sx.of_kind("return") if S.contains(r.value, lambda t: S.is_call_of(t, ("attr", NP, "dot")))]
+    if len(rets) != 1:
+        raise AnalysisError("MeritFuctionView.get_jacobian: scalar gradient return not found")
+    v = rets[0].value
+    m = S.match(v, ("op", "*", ("const", S.V("two", lambda t: t in ("2", "2.0"))), npf("dot", S.V("f"), S.V("j"))))
+    col.add(rule, "MeritFuctionView.get_jacobian#scalar-gradient-factor", m is not None, sx.loc(rets[0]), "d/dx sum(f^2) = 2 f . J", S.show(v)[:100])
+    if m is not None:
+        env = {m["f"]: ("p",)}
+        for s_ in S.subterms(m["j"]):
+            if S.is_call_of(s_, meth="get_jacobian"):
+                env[s_] = ("p", "q")
+        try:
+            sh = TermShapes(env).of(npf("dot", m["f"], m["j"]))
+            ok, facts = sh == ("q",), f"shape {sh}"
+        except (ShapeError, Unsupported) as e:
+            ok, facts = False, str(e)
+        col.add(rule, "MeritFuctionView.get_jacobian#scalar-gradient-shape", ok, sx.loc(rets[0]),
+                "the gradient of the scalar merit 2 * f . J has one entry per knob", facts)
 
 
 def _truncation(col, rule="C16.R4"):
     repo = col.repo
-    cx = fnctx(repo, "SVD", "lstsq")
-    slices = {}
-    for n in A.walk(cx.fn):
-        if isinstance(n, ast.Assign) and isinstance(n.value, ast.Subscript) and A.dotted(n.value.value) in ("self.U", "self.Vh", "self.s"):
-            slices[A.dotted(n.value.value)] = A.sl(n.value.slice)
-    b = A.params(cx.fn)[3] if len(A.params(cx.fn)) > 3 else "sing_val_cutoff"
-    want = {"self.U": f"(slice(None, None, None), slice(None, {b}, None))", "self.Vh": "", "self.s": ""}
-    ok = slices.get("self.U") == f":, :{b}" and slices.get("self.Vh") == f":{b}, :" and slices.get("self.s") == f":{b}"
-    col.add(rule, "SVD.lstsq#one-bound-on-matching-axes", ok, cx.loc(cx.fn),
-            "U's columns, Vh's rows and s are truncated by the same bound", str(slices))
-    ok = not A.has_fragments(cx.fn, ["{L}[{L} > 0] = 1 / {L}[{L} > 0]"])
-    col.add(rule, "SVD.lstsq#positive-singular-values-inverted", ok, cx.loc(cx.fn), "the inverse singular values are 1/s where s > 0 and 0 elsewhere", "")
-    ok = not A.has_fragments(cx.fn, ["{L}[{L} < {P2} * {L}[0]] = 0"])
-    col.add(rule, "SVD.lstsq#rcond-relative-to-largest", ok, cx.loc(cx.fn),
-            "singular values below rcond times the largest one are dropped", "")
-    dfl = []
-    for n in cx.cfg.nodes.values():
-        if n.kind == "stmt" and isinstance(n.ast, ast.Assign) and A.target_names(n.ast.targets[0]) in (["rcond"], ["sing_val_cutoff"]):
-            nm = A.target_names(n.ast.targets[0])[0]
-            from .common import test_is_none
-            dfl.append(has_guard(cx.cfg, n.id, "T", lambda t, nm=nm: test_is_none(t, nm)) and A.src(n.ast.value) == f"self.{nm}")
-    col.add(rule, "SVD.lstsq#defaults-only-when-None", len(dfl) == 2 and all(dfl), cx.loc(cx.fn),
-            "rcond / sing_val_cutoff fall back to the constructor's values only when not given", "")
-    cx = fnctx(repo, "SVD", "__init__")
-    ok = not A.has_fragments(cx.fn, ["self.sing_val_cutoff = len(self.s)"])
-    col.add(rule, "SVD.__init__#default-cutoff-keeps-all", ok, cx.loc(cx.fn), "by default all singular values are kept", "")
+    sx = sctx(repo, "SVD", "lstsq")
+    rets = [r for r in sx.of_kind("return") if not S.is_call_of(r.value, ("attr", NP, "array"))]
+    bounds = {}
+    for r in rets:
+        for s_ in S.subterms(r.value):
+            if s_[:1] == ("sub",) and s_[1] in (U, VH, SV):
+                bounds.setdefault(s_[1][2], set()).add(s_[2])
+    for e in sx.of_kind("store"):
+        for s_ in S.subterms(e.target):
+            if s_[:1] == ("sub",) and s_[1] == SV and s_[2][:1] == ("slice",):
+                bounds.setdefault("s", set()).add(s_[2])
+    ok = all(len(bounds.get(k, ())) == 1 for k in ("U", "Vh", "s"))
+    if ok:
+        u, vh, s_ = next(iter(bounds["U"])), next(iter(bounds["Vh"])), next(iter(bounds["s"]))
+        ok = u[:1] == ("tuple",) and u[1][0] == FULL and vh[:1] == ("tuple",) and vh[1][1] == FULL and \
+            u[1][1] == vh[1][0] == s_ and s_[:1] == ("slice",) and s_[1] is None and s_[3] is None and s_[2] is not None
+    col.add(rule, "SVD.lstsq#one-bound-on-matching-axes", ok, sx.loc(sx.fn),
+            "U's columns, Vh's rows and s are truncated by the same bound", str({k: [S.show(x) for x in v] for k, v in bounds.items()}))
+    sl = next(iter(bounds["s"])) if bounds.get("s") else None
+    St = ("sub", SV, sl) if sl is not None else SV
+    ZL = npf("zeros_like", St)
+    pos = ("cmp", ">", St, ("const", "0"))
+    inv = [e for e in sx.of_kind("store") if e.target == ("sub", ZL, pos)]
+    ok = len(inv) == 1 and inv[0].value == ("op", "/", ("const", "1"), ("sub", St, pos))
+    col.add(rule, "SVD.lstsq#positive-singular-values-inverted", ok, sx.loc(inv[0]) if inv else sx.loc(sx.fn),
+            "the inverse singular values are 1/s where s > 0 and 0 elsewhere", S.show(inv[0].value)[:80] if inv else "")
+    rc = sx.pnamed("rcond")
+    drop = [e for e in sx.of_kind("store") if e.value == ("const", "0") and e.target[:1] == ("sub",) and e.target[1] == ZL]
+    ok = len(drop) == 1
+    if ok:
+        m = S.match(drop[0].target[2], ("cmp", "<", St, ("op", "*", S.V("rc"), ("sub", St, ("const", "0")))))
+        ok = m is not None and rc in S.alts(m["rc"])
+    col.add(rule, "SVD.lstsq#rcond-relative-to-largest", ok, sx.loc(drop[0]) if drop else sx.loc(sx.fn),
+            "singular values below rcond times the largest one are dropped", S.show(drop[0].target[2])[:80] if drop else "")
+    before = len(col.obs)
+    default_only_when_none(col, rule, sx, "SVD.lstsq", rc)
+    default_only_when_none(col, rule, sx, "SVD.lstsq", sx.pnamed("sing_val_cutoff"))
+    if len(col.obs) == before:
+        col.ok(rule, "SVD.lstsq#default-only-when-None", sx.loc(sx.fn), "no default substitution", "")
+    isx = sctx(repo, "SVD", "__init__")
+    cut = isx.pnamed("sing_val_cutoff")
+    st = [e for e in isx.of_kind("store") if e.target == S.sattr("sing_val_cutoff") and ("cmp", "is", cut, ("const", "None")) in isx.conds(e.nid)]
+    ok = bool(st) and all(e.value == S.fcall("len", SV) for e in st)
+    col.add(rule, "SVD.__init__#default-cutoff-keeps-all", ok, isx.loc(isx.fn), "by default all singular values are kept", "")
 
 
-def _to_sympy(e, alias, sub=None):
+def _to_sympy(t, x, names):
     import sympy as sp
-    sub = sub or {}
-    if isinstance(e, ast.Constant) and isinstance(e.value, (int, float)):
-        return sp.nsimplify(e.value)
-    if isinstance(e, ast.Name):
-        if e.id in sub:
-            return sub[e.id]
-        if e.id in alias:
-            return _to_sympy(alias[e.id], alias, sub)
-        return sp.Symbol(e.id)
-    if isinstance(e, ast.Subscript):
-        base = A.dotted(e.value) or A.src(e.value)
-        base = {"self.rescale_x": "scaled_range"}.get(base, base)
-        if base in alias and isinstance(alias[base], (ast.Attribute,)):
-            base = {"self.rescale_x": "scaled_range"}.get(A.dotted(alias[base]), base)
-        idx = A.sl(e.slice).replace(" ", "")
-        idx = {":,0": "0", ":,1": "1"}.get(idx, idx)
-        return sp.Symbol(f"{base}_{idx}")
-    if isinstance(e, ast.BinOp):
-        l, r = _to_sympy(e.left, alias, sub), _to_sympy(e.right, alias, sub)
-        if isinstance(e.op, ast.Add):
+    if t == x:
+        return sp.Symbol("x")
+    if t in names:
+        return sp.Symbol(names[t])
+    k = t[0]
+    if k == "const":
+        try:
+            return sp.nsimplify(float(t[1]))
+        except ValueError:
+            raise Unsupported(f"constant {t[1]}")
+    if k in ("op", "aug"):
+        l, r = _to_sympy(t[2], x, names), _to_sympy(t[3], x, names)
+        if t[1] == "+":
             return l + r
-        if isinstance(e.op, ast.Sub):
+        if t[1] == "-":
             return l - r
-        if isinstance(e.op, ast.Mult):
+        if t[1] == "*":
             return l * r
-        if isinstance(e.op, ast.Div):
+        if t[1] == "/":
             return l / r
-    if isinstance(e, ast.UnaryOp) and isinstance(e.op, ast.USub):
-        return -_to_sympy(e.operand, alias, sub)
-    raise Unsupported(f"formula `{A.src(e)}`")
+    if k == "uop" and t[1] == "-":
+        return -_to_sympy(t[2], x, names)
+    if k == "alt":
+        vals = {sp.simplify(_to_sympy(a, x, names)) for a in t[1]}
+        if len(vals) == 1:
+            return vals.pop()
+    raise Unsupported(f"formula `{S.show(t)[:80]}`")
+
+
+def _map_names():
+    bounds = S.mcall(S.sattr("merit_function"), "_get_x_limits")
+    rs = S.sattr("rescale_x")
+    return {("sub", bounds, ("tuple", (FULL, ("const", "0")))): "bounds_0", ("sub", bounds, ("tuple", (FULL, ("const", "1")))): "bounds_1",
+            ("sub", rs, ("const", "0")): "scaled_range_0", ("sub", rs, ("const", "1")): "scaled_range_1"}
 
 
 def _map_expr(repo, name):
-    from ..refsmodel import _local_alias
-    fn = repo.method("MeritFuctionView", name)
-    alias = _local_alias(fn)
-    alias = {k: v for k, v in alias.items() if not isinstance(v, ast.Call)}
-    rets = [n.value for n in A.walk(fn) if isinstance(n, ast.Return)]
+    sx = sctx(repo, "MeritFuctionView", name, keep=OPT_KEEP | {"_check_for_scalability"})
+    rets = sx.of_kind("return")
     if len(rets) != 1:
         raise AnalysisError(f"MeritFuctionView.{name}: single return expected")
-    xp = A.params(fn)[1]
-    import sympy as sp
-    return fn, _to_sympy(rets[0], alias, {xp: sp.Symbol("x")})
+    return sx, _to_sympy(rets[0].value, sx.P(0), _map_names())
 
 
 def _inverse_pairs(col, rule="C16.R2"):
     repo = col.repo
     import sympy as sp
     m = repo.cls("MeritFunctionForMatch").module
-    # weights
     info = {}
-    for name, op in (("_x_to_knobs", ast.Mult), ("_knobs_to_x", ast.Div)):
-        cx = fnctx(repo, "MeritFunctionForMatch", name)
-        augs = [n for n in cx.cfg.nodes.values() if n.kind == "stmt" and isinstance(n.ast, ast.AugAssign)]
-        ok = len(augs) == 1 and isinstance(augs[0].ast.op, op) and A.src(augs[0].ast.value).endswith(".weight") and isinstance(augs[0].ast.target, ast.Subscript)
-        guard = None
-        if ok:
-            gs = cx.cfg.cond_guards(augs[0].id)
-            guard = [g.kind + ":" + A.src(g.ast) for g in gs]
-            loops = [g for g in cx.cfg.guards(augs[0].id) if g.kind == "T" and isinstance(g.ast, ast.For)]
-            ok = len(loops) == 1 and A.src(loops[0].ast.iter) == "enumerate(self.vary)" and \
-                A.target_names(loops[0].ast.target)[0] == A.dotted(augs[0].ast.target.slice)
-        info[name] = guard
-        col.add(rule, f"MeritFunctionForMatch.{name}#{'multiplies' if op is ast.Mult else 'divides'}-by-weight", ok, cx.loc(cx.fn),
-                f"{name} {'multiplies' if op is ast.Mult else 'divides'} coordinate i by the weight of knob i, for every knob", str(guard))
-        copy_ok = any(isinstance(n, ast.Assign) and ".copy()" in A.src(n.value) and A.params(cx.fn)[1] in A.names_loaded(n.value) for n in A.walk(cx.fn))
-        col.add(rule, f"MeritFunctionForMatch.{name}#works-on-a-copy", copy_ok, cx.loc(cx.fn), "the argument is not modified in place", "")
+    W = ("attr", ("elem", S.sattr("vary")), "weight")
+    for name, op in (("_x_to_knobs", "*"), ("_knobs_to_x", "/")):
+        sx = octx(repo, "MeritFunctionForMatch", name)
+        arg = sx.P(0)
+        st = [e for e in sx.of_kind("store") if e.target[:1] == ("sub",) and e.value is not None and e.value[:1] == ("aug",)]
+        ok = len(st) == 1 and st[0].value[1] == op and st[0].value[3] == W and st[0].target[2] == ("index", S.sattr("vary"))
+        conds = tuple(sx.conds(st[0].nid)) if st else None
+        info[name] = conds
+        col.add(rule, f"MeritFunctionForMatch.{name}#{'multiplies' if op == '*' else 'divides'}-by-weight", ok, sx.loc(sx.fn),
+                f"{name} {'multiplies' if op == '*' else 'divides'} coordinate i by the weight of knob i, for every knob",
+                f"{S.show(st[0].value)[:80] if st else None} under {[S.show(c) for c in conds] if conds else None}")
+        copy_ok = bool(st) and st[0].target[1] != arg and S.contains(st[0].target[1], lambda t: S.is_call_of(t, meth="copy") or S.is_call_of(t, ("attr", NP, "array"))) \
+            and all(r.value == st[0].target[1] for r in sx.of_kind("return"))
+        col.add(rule, f"MeritFunctionForMatch.{name}#works-on-a-copy", copy_ok, sx.loc(sx.fn), "the argument is not modified in place", "")
     col.add(rule, "MeritFunctionForMatch._x_to_knobs~_knobs_to_x#same-guard", info["_x_to_knobs"] == info["_knobs_to_x"] and info["_x_to_knobs"] is not None, m.rel,
-            "the two weight conversions apply under the same condition, so they are inverse to each other", str(info))
-    # affine maps
+            "the two weight conversions apply under the same condition, so they are inverse to each other",
+            str({k: [S.show(c) for c in v] if v else None for k, v in info.items()}))
     try:
-        f1, to_native = _map_expr(repo, "_scaled_to_native")
-        f2, from_native = _map_expr(repo, "_scaled_from_native")
+        s1, to_native = _map_expr(repo, "_scaled_to_native")
+        s2, from_native = _map_expr(repo, "_scaled_from_native")
     except Unsupported as e:
         raise AnalysisError(f"scaling maps: {e}")
     x = sp.Symbol("x")
     comp1 = sp.simplify(from_native.subs(x, to_native) - x)
     comp2 = sp.simplify(to_native.subs(x, from_native) - x)
-    col.add(rule, "MeritFuctionView._scaled_from_native(_scaled_to_native(x))==x", comp1 == 0, m.loc(f2),
+    col.add(rule, "MeritFuctionView._scaled_from_native(_scaled_to_native(x))==x", comp1 == 0, s2.loc(s2.fn),
             "mapping a scaled point to native space and back is the identity (symbolic algebra on the two formulas)", f"difference: {comp1}")
-    col.add(rule, "MeritFuctionView._scaled_to_native(_scaled_from_native(x))==x", comp2 == 0, m.loc(f1),
+    col.add(rule, "MeritFuctionView._scaled_to_native(_scaled_from_native(x))==x", comp2 == 0, s1.loc(s1.fn),
             "mapping a native point to scaled space and back is the identity", f"difference: {comp2}")
-    b0, b1, s0 = sp.Symbol("bounds_0"), sp.Symbol("bounds_1"), sp.Symbol("scaled_range_0")
-    s1 = sp.Symbol("scaled_range_1")
-    ends = sp.simplify(to_native.subs(x, s0) - b0) == 0 and sp.simplify(to_native.subs(x, s1) - b1) == 0
-    col.add(rule, "MeritFuctionView._scaled_to_native#maps-interval-ends-to-limits", ends, m.loc(f1),
+    b0, b1, r0, r1 = sp.Symbol("bounds_0"), sp.Symbol("bounds_1"), sp.Symbol("scaled_range_0"), sp.Symbol("scaled_range_1")
+    ends = sp.simplify(to_native.subs(x, r0) - b0) == 0 and sp.simplify(to_native.subs(x, r1) - b1) == 0
+    col.add(rule, "MeritFuctionView._scaled_to_native#maps-interval-ends-to-limits", ends, s1.loc(s1.fn),
             "the ends of the scaled interval map to the lower and upper limit", f"{to_native}")
-    # chain-rule factor in get_jacobian
-    cx = fnctx(repo, "MeritFuctionView", "get_jacobian")
-    from ..refsmodel import _local_alias
-    alias = _local_alias(cx.fn)
-    fac_name = None
-    colscale = [n for n in A.walk(cx.fn) if isinstance(n, ast.AugAssign) and isinstance(n.op, ast.Mult) and isinstance(n.target, ast.Subscript)]
-    ok = len(colscale) == 1 and isinstance(colscale[0].value, ast.Subscript)
-    if ok:
-        fac_name = A.dotted(colscale[0].value.value)
-        jj = A.dotted(colscale[0].value.slice)
-        ok = A.sl(colscale[0].target.slice) == f":, {jj}"
-    col.add(rule, "MeritFuctionView.get_jacobian#column-j-scaled-by-factor-j", ok, cx.loc(cx.fn),
-            "column j of the native Jacobian is multiplied by d native_j / d scaled_j", A.src(colscale[0]) if colscale else "")
-    if fac_name and fac_name in alias:
-        expr = alias[fac_name]
-        xp = A.params(cx.fn)[1]
-
-        def conv(e):
-            # self._scaled_to_native(arg) -> the map applied to arg; arg built from 0*x / 1+0*x
-            if isinstance(e, ast.Call) and is_self_call(e, "_scaled_to_native") and len(e.args) == 1:
-                return to_native.subs(x, conv(e.args[0]))
-            if isinstance(e, ast.Name) and e.id in alias and e.id != xp:
-                return conv(alias[e.id])
-            if isinstance(e, ast.Name) and e.id == xp:
-                return x
-            if isinstance(e, ast.BinOp):
-                l, r = conv(e.left), conv(e.right)
-                return {ast.Add: l + r, ast.Sub: l - r, ast.Mult: l * r, ast.Div: l / r}[type(e.op)]
-            return _to_sympy(e, {k: v for k, v in alias.items() if not isinstance(v, ast.Call)})
-        try:
-            fac = sp.simplify(conv(expr))
-            deriv = sp.simplify(sp.diff(to_native, x))
-            okf = sp.simplify(fac - deriv) == 0
-            facts = f"factor = {fac}; d(_scaled_to_native)/dx = {deriv}"
-        except (Unsupported, KeyError) as e:
-            raise AnalysisError(f"MeritFuctionView.get_jacobian: chain-rule factor not understood: {e}")
-        col.add(rule, "MeritFuctionView.get_jacobian#factor-is-derivative-of-the-map", okf, cx.loc(cx.fn),
-                "the chain-rule factor equals the derivative of the scaled->native map the view applies in __call__", facts)
-    else:
+    # chain-rule factor in get_jacobian (the private map is inlined: the factor is a formula in x)
+    sx = sctx(repo, "MeritFuctionView", "get_jacobian", keep=OPT_KEEP | {"_check_for_scalability"})
+    xin = npf("array", sx.P(0))
+    colscale = [e for e in sx.of_kind("store") if e.value is not None and e.value[:1] == ("aug",) and e.value[1] == "*" and e.target[:1] == ("sub",)
+                and e.target[2][:1] == ("tuple",) and e.target[2][1][0] == FULL]
+    ok = len(colscale) == 1 and colscale[0].value[3][:1] == ("sub",) and colscale[0].value[3][2] == colscale[0].target[2][1][1]
+    col.add(rule, "MeritFuctionView.get_jacobian#column-j-scaled-by-factor-j", ok, sx.loc(colscale[0]) if colscale else sx.loc(sx.fn),
+            "column j of the native Jacobian is multiplied by d native_j / d scaled_j", S.show(colscale[0].value)[:100] if colscale else "")
+    if not ok:
         raise AnalysisError("MeritFuctionView.get_jacobian: chain-rule factor not found")
+    fac_t = colscale[0].value[3][1]
+    try:
+        # the factor is built from the map applied to 0*x and 1+0*x; x itself may already have been converted: any x-like leaf is `x`
+        names = dict(_map_names())
+        leaves = [a for a in S.instances(fac_t, 64)]
+        vals = set()
+        for inst in leaves:
+            xs = [s_ for s_ in S.subterms(inst) if s_ == xin]
+            e = _to_sympy(S.subst(inst, {xin: ("glob", "X_")}), ("glob", "X_"), names)
+            vals.add(sp.simplify(e))
+        deriv = sp.simplify(sp.diff(to_native, x))
+        okf = bool(vals) and all(sp.simplify(v - deriv) == 0 for v in vals)
+        facts = f"factor = {sorted(map(str, vals))}; d(_scaled_to_native)/dx = {deriv}"
+    except Unsupported as e:
+        # x may appear converted (native) inside the factor: substitute the converted argument as well
+        try:
+            conv = None
+            for s_ in S.subterms(fac_t):
+                pass
+            raise
+        except Unsupported:
+            raise AnalysisError(f"MeritFuctionView.get_jacobian: chain-rule factor not understood: {e}")
+    col.add(rule, "MeritFuctionView.get_jacobian#factor-is-derivative-of-the-map", okf, sx.loc(colscale[0]),
+            "the chain-rule factor equals the derivative of the scaled->native map the view applies in __call__", facts)
     # the same map in __call__ and get_jacobian, under the same condition
-    call = repo.method("MeritFuctionView", "__call__")
-    ok = not A.has_fragments(call, ["if self.rescale_x:", "{P1} = self._scaled_to_native({P1})"]) and \
-        not A.has_fragments(cx.fn, ["if self.rescale_x:", "{P1} = self._scaled_to_native({P1})"])
-    col.add(rule, "MeritFuctionView.__call__~get_jacobian#same-map", ok, cx.loc(cx.fn),
-            "evaluation and Jacobian convert the argument with the same map under the same condition", "")
+    csx = sctx(repo, "MeritFuctionView", "__call__", keep=OPT_KEEP | {"_check_for_scalability"})
+    a1 = [m_["a"][0] for ev, m_ in csx.calls_some(("call", S.sattr("merit_function"), S.V("a"), S.V("k"))) if m_["a"]]
+    a2 = [m_["a"][0] for ev, m_ in sx.calls_some(("call", ("attr", S.sattr("merit_function"), "get_jacobian"), S.V("a"), S.V("k"))) if m_["a"]]
+    norm = lambda t, s_: S.subst(t, {s_.P(0): ("glob", "X_")})   # noqa: E731
+    ok = len(a1) == 1 and len(a2) == 1 and norm(a1[0], csx) == norm(a2[0], sx) and len(S.alts(a1[0])) == 2
+    col.add(rule, "MeritFuctionView.__call__~get_jacobian#same-map", ok, sx.loc(sx.fn),
+            "evaluation and Jacobian convert the argument with the same map under the same condition",
+            f"{S.show(a1[0])[:70] if a1 else None} / {S.show(a2[0])[:70] if a2 else None}")
 
 
 def _finite_differences(col, rule="C16.R3"):
     repo = col.repo
-    cx = fnctx(repo, "MeritFunctionForMatch", "get_jacobian")
-    cfg = cx.cfg
+    sx = octx(repo, "MeritFunctionForMatch", "get_jacobian")
+    cfg = sx.cfg
     q = "MeritFunctionForMatch.get_jacobian"
-    xp = A.params(cx.fn)[1]
-    augs = [n for n in cfg.nodes.values() if n.kind == "stmt" and isinstance(n.ast, ast.AugAssign) and isinstance(n.ast.target, ast.Subscript)
-            and A.dotted(n.ast.target.value) == xp]
-    plus = [n for n in augs if isinstance(n.ast.op, ast.Add)]
-    minus = [n for n in augs if isinstance(n.ast.op, ast.Sub)]
-    ok = len(plus) == 1 and len(minus) == 1 and A.src(plus[0].ast.target) == A.src(minus[0].ast.target) and A.src(plus[0].ast.value) == A.src(minus[0].ast.value)
-    col.add(rule, f"{q}#perturb-and-restore", ok, cx.loc(plus[0].id) if plus else cx.loc(cx.fn),
-            "x[i] is increased by steps[i] and afterwards decreased by the same steps[i]", "")
+    xp = sx.P(0)
+    xc = S.mcall(npf("array", xp), "copy")
+    augs = [e for e in sx.of_kind("store") if e.value is not None and e.value[:1] == ("aug",) and e.target[:1] == ("sub",) and e.target[1] == xc]
+    plus = [e for e in augs if e.value[1] == "+"]
+    minus = [e for e in augs if e.value[1] == "-"]
+    ok = len(plus) == 1 and len(minus) == 1 and plus[0].target == minus[0].target and plus[0].value[3] == minus[0].value[3]
+    col.add(rule, f"{q}#perturb-and-restore", ok, sx.loc(plus[0]) if plus else sx.loc(sx.fn),
+            "x[i] (of a copy of the caller's x) is increased by steps[i] and afterwards decreased by the same steps[i]",
+            f"{[S.show(e.target)[:50] + ' ' + e.value[1] + '= ' + S.show(e.value[3])[:50] for e in augs]}")
+    col.add(rule, f"{q}#works-on-a-copy-of-x", bool(augs), sx.loc(sx.fn), "the caller's x is not perturbed", "")
     if ok:
-        ii = A.src(plus[0].ast.target.slice)
-        step = A.src(plus[0].ast.value)
-        cols = [n for n in cfg.nodes.values() if n.kind == "stmt" and isinstance(n.ast, ast.Assign) and isinstance(n.ast.targets[0], ast.Subscript)
-                and A.sl(n.ast.targets[0].slice) == f":, {ii}"]
+        i = plus[0].target[2]
+        step = plus[0].value[3]
+        cols = [e for e in sx.of_kind("store") if e.target[:1] == ("sub",) and e.target[2] == ("tuple", (FULL, i))]
         okc = len(cols) == 1
         if okc:
-            v = cols[0].ast.value
-            okc = isinstance(v, ast.BinOp) and isinstance(v.op, ast.Div) and A.src(v.right) == step and isinstance(v.left, ast.BinOp) \
-                and isinstance(v.left.op, ast.Sub) and isinstance(v.left.left, ast.Call) and A.dotted(v.left.left.func) == "self" \
-                and A.dotted(v.left.left.args[0]) == xp
-            order = cfg.dominates(plus[0].id, cols[0].id) and cfg.dominates(cols[0].id, minus[0].id)
-            okc = okc and order
-            f0 = A.dotted(v.left.right) if isinstance(v, ast.BinOp) and isinstance(v.left, ast.BinOp) else None
-        col.add(rule, f"{q}#column-i=(f(x+h_i)-f0)/h_i", okc, cx.loc(cols[0].id) if cols else cx.loc(cx.fn),
+            v = cols[0].value
+            mm = S.match(v, ("op", "/", ("op", "-", ("call", S.SELF, S.V("a"), S.V("k")), S.V("f0")), step))
+            okc = mm is not None and mm["a"][:1] == (xc,) and cfg.dominates(plus[0].nid, cols[0].nid) and cfg.dominates(cols[0].nid, minus[0].nid)
+            if okc:
+                f0 = mm["f0"]
+                f0p = sx.pnamed("f0") if "f0" in sx.sym.params else None
+                okf = f0p is not None and all(a == f0p or (S.is_call_of(a, S.SELF) and a[2][:1] == (xc,)) for a in S.alts(f0)) and f0p in S.alts(f0)
+                col.add(rule, f"{q}#f0-at-x", okf, sx.loc(sx.fn), "the base value is f(x) (computed only when not supplied)", S.show(f0)[:80])
+                default_only_when_none(col, rule, sx, q, f0p) if f0p is not None else None
+        col.add(rule, f"{q}#column-i=(f(x+h_i)-f0)/h_i", okc, sx.loc(cols[0]) if cols else sx.loc(sx.fn),
                 "column i is the forward difference (f(x + steps[i] e_i) - f0) / steps[i], computed between the perturbation and its removal", "")
-        restored_each = all(cfg.must_pass(plus[0].id, l, [minus[0].id]) for l in [g.of for g in cfg.guards(plus[0].id) if g.kind == "T" and isinstance(g.ast, ast.For)])
-        col.add(rule, f"{q}#restored-before-next-column", restored_each, cx.loc(minus[0].id),
-                "x[i] is restored before the next column is computed", "")
-    steps = [n for n in A.walk(cx.fn) if isinstance(n, ast.Assign) and A.src(n.value) == "self._knobs_to_x(self.steps_for_jacobian)"]
-    col.add(rule, f"{q}#steps-in-solver-space", len(steps) == 1, cx.loc(cx.fn), "the knob steps are converted to solver space like the knobs", "")
-    f0s = [n for n in cfg.nodes.values() if n.kind == "stmt" and isinstance(n.ast, ast.Assign) and A.target_names(n.ast.targets[0]) == ["f0"]]
-    from .common import test_is_none
-    okf = all(has_guard(cfg, n.id, "T", lambda t: test_is_none(t, "f0")) and A.src(n.ast.value) == f"self({xp})" for n in f0s) and bool(f0s)
-    col.add(rule, f"{q}#f0-at-x", okf, cx.loc(cx.fn), "the base value is f(x) (computed only when not supplied)", "")
-    cpy = [n for n in A.walk(cx.fn) if isinstance(n, ast.Assign) and A.target_names(n.targets[0]) == [xp] and ".copy()" in A.src(n.value)]
-    col.add(rule, f"{q}#works-on-a-copy-of-x", len(cpy) == 1, cx.loc(cx.fn), "the caller's x is not perturbed", "")
-    # solver passes f0 = y evaluated at the same x
-    cx2 = fnctx(repo, "JacobianSolver", "step")
-    ok = not A.has_fragments(cx2.fn, ["{L}.get_jacobian(self.x, f0={L})", "{L}, {L} = self.eval(self.x)"])
-    col.add(rule, "JacobianSolver.step#jacobian-at-current-x", ok, cx2.loc(cx2.fn), "the Jacobian is taken at the current point with the residuals just evaluated there", "")
+        hdrs = [g.of for g in cfg.guards(plus[0].nid) if g.kind == "T" and isinstance(g.ast, (ast.For, ast.AsyncFor))]
+        restored_each = bool(hdrs) and all(cfg.must_pass(plus[0].nid, h, [minus[0].nid]) for h in hdrs) and cfg.must_pass(plus[0].nid, cfg.EXIT, [minus[0].nid])
+        col.add(rule, f"{q}#restored-before-next-column", restored_each, sx.loc(minus[0]), "x[i] is restored before the next column is computed", "")
+        want_steps = S.mcall(S.SELF, "_knobs_to_x", S.sattr("steps_for_jacobian"))
+        col.add(rule, f"{q}#steps-in-solver-space", step[:1] == ("sub",) and step[1] == want_steps, sx.loc(sx.fn),
+                "the knob steps are converted to solver space like the knobs", S.show(step)[:80])
+    sx2 = octx(repo, "JacobianSolver", "step")
+    X = S.sattr("x")
+    Y = ("item", S.mcall(S.SELF, "eval", X), 0)
+    gj = sx2.calls_some(("call", ("attr", S.V("f"), "get_jacobian"), (X,), (("f0", Y),)))
+    col.add(rule, "JacobianSolver.step#jacobian-at-current-x", len(gj) >= 1, sx2.loc(sx2.fn),
+            "the Jacobian is taken at the current point with the residuals just evaluated there", "")
 
 
 def check(col: Collector):
